@@ -356,6 +356,12 @@ class StretchyTreeMatcher:
         if base_mappings:
             for mapping in base_mappings:
                 mapping.merge_map_with(use_previous)
+            # A pattern without children never gets to map_merge, which is what weeds out mappings
+            # that bind a placeholder differently than the previous match did
+            if use_previous is not None:
+                base_mappings = [mapping for mapping in base_mappings if not mapping.has_conflicts()]
+                if not base_mappings:
+                    return []
             # base case this runs 0 times because no children
             # find each child of ins_node that matches IN ORDER
             base_sibs = [-1]
